@@ -18,7 +18,7 @@ PROPS = {
         trivial=[r'^read/m0\.other$'], rule='L0 differential on the reader goroutine over in-memory connections with varying segmentations: header length values (quick: protocol-relevant sample + 400 random; thorough: all 65536) x types, all 256 types x boundary lengths, every marker position, every truncation; NOTIFICATION encodings; non-trivial = reader got past the first short read'),
     'C14': dict(title='The OPEN corebgp sends reflects configuration and plugin capabilities', l0=True, live=True, lean=['CoreBGP.Props.C14'],
         rule='L0 differential on newOpenMessage+encode: AS grid incl. 65535/65536/2^32-1, hold times, capability lists 0..40 with codes 0..255 incl. 65, value lengths 0..300, sweeps across every 255-byte length-octet boundary'),
-    'C02': dict(title='OPEN handshake: exactly the valid OPENs are accepted', l0=True, live=True, lean=['CoreBGP.Props.C02', 'CoreBGP.Props.C02b', 'CoreBGP.Props.C15'],
+    'C02': dict(title='OPEN handshake: exactly the valid OPENs are accepted', l0=True, live=True, lean=['CoreBGP.Props.C02', 'CoreBGP.Props.C02b', 'CoreBGP.Props.C15', 'CoreBGP.Props.PathTieC02'],
         trivial=[r'^open\.dec/err\.1\.2$', r'^open\.val/undecodable$'],
         rule='L0 differential on openMessage.decode / validate: field grids (version x AS field x hold x identifier nibble x capability) crossed with (local AS, remote AS, id) classes, grammar-generated parameter layouts, truncations and length-octet nudges, random bodies up to 4077'),
     'C16': dict(title='UpdateDecoder partitions an UPDATE exactly as its length fields dictate', l0=True, lean=['CoreBGP.Props.C16', 'CoreBGP.Props.C16B'],
@@ -37,22 +37,22 @@ PROPS = {
         rule='L0 differential with recover (PANIC is an output like any other) over every decoding entry point: the generators of C02/C08/C15/C16/C18/C19 plus oversize inputs (65535..70000 bytes with extreme length fields)'),
     'C07': dict(title='Connection collision is resolved per RFC 4271 6.8, in every arrival order', live=True, lean=['CoreBGP.Props.C07', 'CoreBGP.Props.DecTieC07'],
         rule='live collision grid: local id <,=,> remote id x AS <,> x which connection completes its OPEN exchange first x Established-before-the-other, plus the forced collision window (manager held before the select while the other FSM requests Established / fails); every trace checked by L1 inclusion and all monitors'),
-    'C10': dict(title='Shutdown from any state is prompt, complete, race-free and leak-free', live=True, lean=['CoreBGP.Props.C10', 'CoreBGP.Props.C10Own', 'CoreBGP.Props.C20Lock', 'CoreBGP.Props.C20Life'], race_search=['C10', 'C11', 'C07', 'C04'], race_quick=['C10R'],
+    'C10': dict(title='Shutdown from any state is prompt, complete, race-free and leak-free', live=True, lean=['CoreBGP.Props.C10', 'CoreBGP.Props.C10Own', 'CoreBGP.Props.C20Lock', 'CoreBGP.Props.C20Life', 'CoreBGP.Props.PathTieC10'], race_search=['C10', 'C11', 'C07', 'C04'], race_quick=['C10R'],
         rule='Close / DeletePeer at every point of every connection script (idle, before Serve, OpenSent, OpenConfirm, Established, during collision, damped, with active writers, two peers, the forced dial-completed-while-closing window), both directions'),
-    'C09': dict(title='State-dependent message handling follows RFC 4271 8.2.2 / RFC 6608', live=True, lean=['CoreBGP.Props.C09', 'CoreBGP.Props.C09Tie', 'CoreBGP.Props.C09Switch'],
+    'C09': dict(title='State-dependent message handling follows RFC 4271 8.2.2 / RFC 6608', live=True, lean=['CoreBGP.Props.C09', 'CoreBGP.Props.C09Tie', 'CoreBGP.Props.C09Switch', 'CoreBGP.Props.PathTie', 'CoreBGP.Props.PathTieC09'],
         rule='exhaustive live table: state {OpenSent, OpenConfirm, Established} x stimulus {OPEN, UPDATE, KEEPALIVE, NOTIFICATION Cease/other/hold/undecodable, FIN, RST} x direction {out, in}; each trace must be reproduced by the L1 session model and pass all monitors'),
-    'C03': dict(title='Inbound UPDATEs reach the handler exactly once, in order, byte-exact', live=True, lean=['CoreBGP.Props.C03'],
+    'C03': dict(title='Inbound UPDATEs reach the handler exactly once, in order, byte-exact', live=True, lean=['CoreBGP.Props.C03', 'CoreBGP.Props.PathTieC03'],
         rule='live sessions with seeded random UPDATE/KEEPALIVE sequences (bodies 0..4077) cut into random TCP writes (1-byte writes, writes spanning several messages), handler recording arguments, handler veto at a random position; every trace reproduced by the L1 model (handler calls = sent bodies, in order) + aliasing monitor',
         assumptions=['"the delivered slice is not modified afterwards" is Go aliasing: monitored by re-comparing every delivered slice with a private copy at session end (partial clause)']),
-    'C04': dict(title='Outbound byte stream is whole well-formed messages; WriteUpdate contract', live=True, lean=['CoreBGP.Props.C04', 'CoreBGP.Props.C04L2', 'CoreBGP.Props.C04Tie'],
+    'C04': dict(title='Outbound byte stream is whole well-formed messages; WriteUpdate contract', live=True, lean=['CoreBGP.Props.C04', 'CoreBGP.Props.C04L2', 'CoreBGP.Props.C04Tie', 'CoreBGP.Props.PathTieC04'],
         rule='live sessions with 1..16 concurrent writer goroutines (tagged random bodies 0..4077), writes from inside OnEstablished and the handler, hold time 3 s so keepalives interleave, teardown by Cease / FIN / FSM error / Close at a random point, re-establishment, writes after OnClose; strict frame parser on every byte received + per-writer order / exactly-once / no-leak monitors',
         assumptions=['atomicity of one net.Conn.Write with respect to concurrent writes (Go netFD write lock) is assumed']),
-    'C06': dict(title='Hold time negotiation, hold-timer expiry and keepalive cadence', live=True, lean=['CoreBGP.Props.C06', 'CoreBGP.Props.C02b'],
+    'C06': dict(title='Hold time negotiation, hold-timer expiry and keepalive cadence', live=True, lean=['CoreBGP.Props.C06', 'CoreBGP.Props.C02b', 'CoreBGP.Props.PathTieC06'],
         rule='live timing grid: (local, remote) hold in {(3,3),(3,0),(0,3),(0,0),(6,3),(3,9)} (thorough adds 9/30/90/65535 columns) x remote pattern {silent, KEEPALIVE-only, UPDATE-only, just-before-expiry, local WriteUpdate traffic} x direction, expiry in OpenConfirm; timing monitor on remote-side timestamps (no early expiry: safe direction; expiry by deadline + 1 s; send gaps <= hold/3 + 0.4 s; zero: no periodic KEEPALIVE, no expiry)',
         assumptions=['real-time bounds are observed with slack (scheduler latency is not proved): partial clause']),
     'C13': dict(title='Only connections from configured peers to the configured address are served', live=True, lean=['CoreBGP.Props.C13', 'CoreBGP.Props.DecTieC13'],
         rule='live admission grid: listener {specific, wildcard} x peer with/without local address x source {configured, other loopback address} x destination {configured, other} x peer state at arrival {idle, inbound in progress, Established, held down}; zero bytes + EOF vs OPEN judged from the trace, an unrelated Established session must stay alive'),
-    'C01': dict(title='One Established session per peer; well-formed plugin callback history', live=True, lean=['CoreBGP.Props.C01', 'CoreBGP.Props.C09Tie'],
+    'C01': dict(title='One Established session per peer; well-formed plugin callback history', live=True, lean=['CoreBGP.Props.C01', 'CoreBGP.Props.C09Tie', 'CoreBGP.Props.PathTieC01'],
         rule='union of the live families in which sessions come and go (collision grid + forced windows, state x message table, shutdown at every point, reconnection fault sequences): every trace must be a trace of the L2 transition system (state-set tracking) and pass the plugin-history monitor (prefix of (E+E-(H+H-)*C+C-)*, complete at Close/DeletePeer, GetCapabilities / OnOpenMessage counts)',
         assumptions=['plugin callbacks are atomic enter/exit pairs that always return']),
     'C11': dict(title='Reconnection liveness and retry pacing after non-damping faults', live=True, lean=['CoreBGP.Props.C11', 'CoreBGP.Props.C11T', 'CoreBGP.Props.DecTieC11'],
